@@ -59,6 +59,7 @@ struct Profile {
     bool thorough{false};
     bool judge_history{true};  // linearizability, value sanity, range-read consistency
     bool judge_quiescent{true}; // coherence of access paths + structure at quiescence
+    bool cursor_skip_reads{true}; // keys passed over by a cursor count as 'absent' pseudo-reads (C10's no-skip clause)
 };
 
 inline Profile make_profile(const std::string& prop, const std::string& tier) {
@@ -91,6 +92,7 @@ inline Profile make_profile(const std::string& prop, const std::string& tier) {
         p.max_threads = 4;
         p.max_ops = 4;
     } else if (prop == "C15") {
+        p.cursor_skip_reads = false; // C15 judges the values that are observed, not which keys a cursor passes over
         // overwrites of few keys with values of different lengths vs. get / scan / cursor readers
         p.w_put = 8;
         p.w_put_unique = 0;
@@ -751,6 +753,7 @@ inline vf::CaseResult run_case(const vf::RunnerArgs& args, const std::vector<std
                         std::uint64_t resp = last_round ? r.resp : r.step_resp[i];
                         const std::string* cur = last_round ? nullptr : &r.items[i].first;
                         for (auto& k : universe) {
+                            if (!pf.cursor_skip_reads) { break; }
                             if (!in_interval(k, o)) { continue; }
                             bool passed = false; // k lies strictly between prev and cur in iteration order
                             if (!o.r2l) {
